@@ -50,9 +50,15 @@ func c17Listing(classes []int) []p9p.Dir {
 
 func c17Iter(list []p9p.Dir, batches []int) p9p.ReadNext {
 	pos := 0
+	ended := false
 	b := append([]int(nil), batches...)
 	return func(ctx context.Context) ([]p9p.Dir, error) {
 		if pos >= len(list) {
+			// an iterator owes nothing after it has reported the end once
+			if ended {
+				return nil, fmt.Errorf("directory iterator called again after it reported the end")
+			}
+			ended = true
 			return nil, nil
 		}
 		n := len(list) - pos
